@@ -179,6 +179,7 @@ func (t *Target) SendRequest(w http.ResponseWriter, req *http.Request) {
 
 func (t *Target) Drain(timeout time.Duration) {
 	originalState := t.updateState(TargetStateDraining)
+	verifEvent("drain-begin", t, int(originalState), int64(timeout))
 	if originalState == TargetStateDraining {
 		return
 	}
